@@ -28,3 +28,8 @@ func RootPkgDomain() string { return string(errors.PackageDomain()) }
 
 //go:noinline
 func AtDepth0() string { return string(errors.PackageDomainAtDepth(0)) }
+
+// Handled hides err behind a barrier in this package's domain.
+//
+//go:noinline
+func Handled(err error) error { return domains.Handled(err) }
